@@ -102,3 +102,31 @@ Example failing_setup_keeps_earlier_cleanups :
   crun_out [CPush 4; CAddCleanup 5 true 0 false; CFixture 1 [(7, false)] true false; CPop]
   = [OOk; OOk; OSetupErr; OPopped [7; 5] (Some 5)].
 Proof. vm_compute. reflexivity. Qed.
+
+(* execute_steps: whatever the nested steps are, and whether or not one of them fails, the
+   caller's text and table are afterwards what they were; nothing else in the context changed *)
+Theorem execute_steps_restores_the_callers_text_and_table :
+  forall st steps st' seen raised,
+    st <> [] -> execute_steps st steps = (st', seen, raised) ->
+    attr_or_none st' k_text = attr_or_none st k_text /\
+    attr_or_none st' k_table = attr_or_none st k_table /\
+    (forall k, k <> k_text -> k <> k_table -> cget st' k = cget st k) /\
+    tl st' = tl st.
+Proof. exact execute_steps_restores. Qed.
+Print Assumptions execute_steps_restores_the_callers_text_and_table.
+
+(* the nested steps run in order up to and including the first that does not pass, each seeing
+   its own text and table *)
+Theorem nested_steps_see_their_own_text_and_table :
+  forall steps st st' seen raised,
+    st <> [] -> exec_nested st steps = (st', seen, raised) ->
+    exists n, seen = map (fun s => (n_text s, n_table s)) (firstn n steps) /\
+              (raised = false -> n = length steps) /\
+              (raised = true -> exists s, nth_error steps (n - 1) = Some s /\ n_passes s = false /\ 1 <= n).
+Proof. exact exec_nested_seen. Qed.
+Print Assumptions nested_steps_see_their_own_text_and_table.
+
+Example execute_steps_with_a_failing_nested_step :
+  exec_case (1, 1, [mkNested 10 0 true; mkNested 0 11 false; mkNested 12 12 true])
+  = ([(10, 0); (0, 11)], true, (1, 1)).
+Proof. vm_compute. reflexivity. Qed.
